@@ -8,6 +8,7 @@ operations; two direct two-bar / two-operation obligations (accrual across a bar
 operations) are proved on top."""
 from decimal import Decimal
 from pyvc.api import proof, native, exact, spec
+from .common import REJECT
 from .aave_common import *   # noqa
 from .aave_common import (AAVE_CONTRACTS, SHAPES, SHAPES_WITH_SUPPLY_OF_OP, SHAPES_WITH_DEBT_OF_OP, SHAPES_WITH_SUPPLY, SHAPES_WITH_DEBT, world,
                           raw_state, dump, DUST, add_next_bar, wallet_balance)
@@ -62,7 +63,7 @@ def po_supply(S):
     n0 = len(w.actions)
     try:
         m.supply(w.op, amount, flag)
-    except Exception:
+    except REJECT:
         return
     S.cover("accepted")
     S.check("wallet-debited-by-amount", S.eq(wallet_balance(w, w.op), w0 - amount) or (abs(w0 - amount) <= abs(w0) * Decimal("0.0000100001") and wallet_balance(w, w.op) == 0))
@@ -88,7 +89,7 @@ def po_withdraw(S):
             m.withdraw(w.op)
         else:
             m.withdraw(w.op, amount)
-    except Exception:
+    except REJECT:
         return
     S.cover("accepted")
     moved = s0 if full else amount
@@ -114,7 +115,7 @@ def po_borrow(S):
     n0 = len(w.actions)
     try:
         m.borrow(w.op, amount)
-    except Exception:
+    except REJECT:
         return
     S.cover("accepted")
     S.check("wallet-credited-by-amount", S.eq(wallet_balance(w, w.op), w0 + amount))
@@ -140,7 +141,7 @@ def po_repay(S):
             m.repay(w.op)
         else:
             m.repay(w.op, amount)
-    except Exception:
+    except REJECT:
         return
     S.cover("accepted")
     moved = d0 if full else amount
@@ -173,7 +174,7 @@ def po_repay_collateral(S):
     Pd, Pc = price(m, w.op), price(m, c)
     try:
         m.repay(w.op, amount, True, c)
-    except Exception:
+    except REJECT:
         return
     S.cover("accepted")
     paid = w.actions[-1].amount
@@ -200,7 +201,7 @@ def po_history(S):
         pr = add_next_bar(S, w)
         m.set_market_status(AaveMarketStatus(T1, None), pr)
         m.supply(w.op, b, flag)
-    except Exception:
+    except REJECT:
         return
     S.cover("both-accepted")
     i1 = liq_index(m, w.op)
@@ -231,7 +232,7 @@ def po_split_add(S):
             w1.market.supply(w1.op, a, flag)
             w1.market.supply(w1.op, b, flag)
             w2.market.supply(w2.op, a + b, flag)
-    except Exception:
+    except REJECT:
         return
     S.cover("all-accepted")
     S.check("same-supply", S.eq(supply_amount(w1.market, w1.op), supply_amount(w2.market, w2.op)))
@@ -256,7 +257,7 @@ def po_split_sub(S):
             w1.market.withdraw(w1.op, a)
             w1.market.withdraw(w1.op, b)
             w2.market.withdraw(w2.op, a + b)
-    except Exception:
+    except REJECT:
         return
     S.cover("all-accepted")
     m1, m2 = w1.market, w2.market
